@@ -99,6 +99,11 @@ RowLaws ==
     IN /\ ReflexiveRow(row) /\ WalkReflexiveRow /\ AntisymmetricRow(row, col) /\ TotalPreorderRow(row)
        /\ ThreeValuedRow(row) /\ OpsRow(row) /\ EvrRow(row)
 
-Emit == PrintT(<<"CASE", ToJson([k |-> k, x |-> Items[k], row |-> Row])>>)
+(* one CASE per item: its row of the table and the set of branches of the reference that decided *)
+(* somewhere in the row (vacuity control: the harness requires every branch to occur)           *)
+CmpD(x, y) == IF Mode = "ver" THEN VerCmpD(x, y) ELSE EvrCmpD(x, y)
+Emit == LET rd == [j \in 1..N |-> CmpD(Items[k], Items[j])] IN
+        PrintT(<<"CASE", ToJson([k |-> k, x |-> Items[k], row |-> [j \in 1..N |-> rd[j].r],
+                                 whys |-> {rd[j].why : j \in 1..N}])>>)
 
 =============================================================================
